@@ -26,6 +26,8 @@ struct Input {
     files: Vec<Vec<(String, u64)>>,
     /// with `same_path_twice`, files[0] is written once and its path is passed twice in a row
     same_path_twice: bool,
+    /// 0 = "\n" after every row; 1 = "\r\n" after every row; 2 = no terminator after the last row of each file
+    terminators: u8,
 }
 
 fn key(rng: &mut Rng) -> String {
@@ -47,8 +49,8 @@ fn inputs(ctx: &Ctx) -> Vec<Input> {
         v
     };
     let mut out = vec![];
-    out.push(Input { name: "no-repeats-50", files: vec![uniq(50, &mut rng)], same_path_twice: false });
-    out.push(Input { name: "no-repeats-500", files: vec![uniq(500, &mut rng)], same_path_twice: false });
+    out.push(Input { name: "no-repeats-50", files: vec![uniq(50, &mut rng)], same_path_twice: false, terminators: 0 });
+    out.push(Input { name: "no-repeats-500", files: vec![uniq(500, &mut rng)], same_path_twice: false, terminators: 0 });
     {
         // repeats far apart (across batches for small batch sizes)
         let base = uniq(40, &mut rng);
@@ -57,7 +59,7 @@ fn inputs(ctx: &Ctx) -> Vec<Input> {
         for (k, _) in base.iter().take(20) {
             rows.push((k.clone(), rng.below(1 << 32)));
         }
-        out.push(Input { name: "repeats-far-apart", files: vec![rows], same_path_twice: false });
+        out.push(Input { name: "repeats-far-apart", files: vec![rows], same_path_twice: false, terminators: 0 });
     }
     {
         // adjacent repeats, incl. identical rows
@@ -73,14 +75,14 @@ fn inputs(ctx: &Ctx) -> Vec<Input> {
                 rows.push((k.clone(), 0));
             }
         }
-        out.push(Input { name: "repeats-adjacent-and-identical-rows", files: vec![rows], same_path_twice: false });
+        out.push(Input { name: "repeats-adjacent-and-identical-rows", files: vec![rows], same_path_twice: false, terminators: 0 });
     }
     {
         let a = uniq(60, &mut rng);
         let mut b = uniq(20, &mut rng);
         b.extend(a.iter().take(10).cloned());
         let c: Vec<(String, u64)> = a.iter().skip(5).take(10).map(|(k, _)| (k.clone(), rng.below(1000))).collect();
-        out.push(Input { name: "three-input-files", files: vec![a, b, c], same_path_twice: false });
+        out.push(Input { name: "three-input-files", files: vec![a, b, c], same_path_twice: false, terminators: 0 });
     }
     {
         // empty input files in first, middle and last position
@@ -88,28 +90,36 @@ fn inputs(ctx: &Ctx) -> Vec<Input> {
         let b = uniq(15, &mut rng);
         let mut c = uniq(5, &mut rng);
         c.push(a[0].clone());
-        out.push(Input { name: "five-input-files-some-empty", files: vec![vec![], a, vec![], b, c, vec![]], same_path_twice: false });
+        out.push(Input { name: "five-input-files-some-empty", files: vec![vec![], a, vec![], b, c, vec![]], same_path_twice: false, terminators: 0 });
     }
     {
         // the same path given twice in a row: its rows count twice
         let a = uniq(25, &mut rng);
         let b = uniq(10, &mut rng);
-        out.push(Input { name: "same-path-listed-twice", files: vec![a.clone(), a, b], same_path_twice: true });
+        out.push(Input { name: "same-path-listed-twice", files: vec![a.clone(), a, b], same_path_twice: true, terminators: 0 });
     }
-    out.push(Input { name: "one-row", files: vec![vec![("solo".to_string(), 77)]], same_path_twice: false });
-    out.push(Input { name: "empty-input", files: vec![vec![]], same_path_twice: false });
+    {
+        let a = uniq(40, &mut rng);
+        out.push(Input { name: "crlf-line-endings", files: vec![a], same_path_twice: false, terminators: 1 });
+        let b = uniq(12, &mut rng);
+        let c = uniq(12, &mut rng);
+        let d = uniq(3, &mut rng);
+        out.push(Input { name: "files-without-final-newline", files: vec![b, c, d], same_path_twice: false, terminators: 2 });
+    }
+    out.push(Input { name: "one-row", files: vec![vec![("solo".to_string(), 77)]], same_path_twice: false, terminators: 0 });
+    out.push(Input { name: "empty-input", files: vec![vec![]], same_path_twice: false, terminators: 0 });
     {
         let keys = uniq(5, &mut rng);
         let rows: Vec<(String, u64)> = (0..200).map(|_| (rng.pick(&keys).0.clone(), rng.below(1 << 20))).collect();
-        out.push(Input { name: "five-keys-200-rows", files: vec![rows], same_path_twice: false });
+        out.push(Input { name: "five-keys-200-rows", files: vec![rows], same_path_twice: false, terminators: 0 });
     }
-    out.push(Input { name: "all-identical-rows", files: vec![vec![("same".to_string(), 3); 25]], same_path_twice: false });
+    out.push(Input { name: "all-identical-rows", files: vec![vec![("same".to_string(), 3); 25]], same_path_twice: false, terminators: 0 });
     {
         let mut rows = uniq(120, &mut rng);
         rows.sort();
-        out.push(Input { name: "already-sorted", files: vec![rows.clone()], same_path_twice: false });
+        out.push(Input { name: "already-sorted", files: vec![rows.clone()], same_path_twice: false, terminators: 0 });
         rows.reverse();
-        out.push(Input { name: "reverse-sorted", files: vec![rows], same_path_twice: false });
+        out.push(Input { name: "reverse-sorted", files: vec![rows], same_path_twice: false, terminators: 0 });
     }
     {
         let n = ctx.tier.pick(3000, 100_000);
@@ -123,7 +133,7 @@ fn inputs(ctx: &Ctx) -> Vec<Input> {
             let j = rng.usize(i + 1);
             rows.swap(i, j);
         }
-        out.push(Input { name: "large-30pct-repeats", files: vec![rows], same_path_twice: false });
+        out.push(Input { name: "large-30pct-repeats", files: vec![rows], same_path_twice: false, terminators: 0 });
     }
     out
 }
@@ -181,11 +191,16 @@ fn run_fst(bin: &Path, dir: &Path, inp: &Input, cfg: &RunCfg, extra_env: &[(Stri
         }
         let p = dir.join(format!("in{}.txt", i));
         let mut text = String::new();
-        for (k, v) in rows {
+        for (ri, (k, v)) in rows.iter().enumerate() {
             if cfg.mode == Mode::Set {
-                text.push_str(&format!("{}\n", k));
+                text.push_str(k);
             } else {
-                text.push_str(&format!("{},{}\n", k, v));
+                text.push_str(&format!("{},{}", k, v));
+            }
+            match inp.terminators {
+                1 => text.push_str("\r\n"),
+                2 if ri + 1 == rows.len() => {}
+                _ => text.push('\n'),
             }
         }
         std::fs::write(&p, text).unwrap();
@@ -697,7 +712,7 @@ pub fn run(ctx: &Ctx) -> i32 {
         ev,
         Spec {
             level: "exploration",
-            rule: "one evaluation = one run of the real `fst set|map` binary (unsorted mode) as a subprocess with seeded 0-2 ms delays injected at channel send/receive and around batch construction (hook H4): exit status 0, output opens and verify()s, keys == distinct input keys, every value == sum/max/min over ALL rows of its key, and for inputs without repeated keys the output bytes equal a sorted library build; the H4 batch trace is parsed into the merge tree (which leaf batches met in which union, per generation) and the worker assignment, and an offline conservation checker runs over it and records anomalies as evidence without judging them (the leaf batches together hold between #distinct keys and #rows rows, every intermediate file produced once and consumed by exactly one union, exactly one unconsumed result); inputs: 15 shapes (the same path listed twice in a row, no repeats, repeats far apart, adjacent repeats incl. identical rows, three input files, five input files of which three are empty, one row, empty, five keys x 200 rows, all identical rows, sorted, reverse sorted, 3000 (thorough 10^5) rows with 30% repeats) x batch sizes {1,2,3,7,all} x fd-limit {2,3,15} x threads {1,2,5,16} x {set,sum,max,min}, a quarter of the runs overwriting an existing longer destination file (--force): a systematic core (every input x mode x batch size) plus random combinations; one fixed configuration is repeated under 24 (200) delay seeds to count how many distinct merge trees scheduling alone produces; thorough adds ThreadSanitizer-instrumented and valgrind-memcheck runs; non-trivial = every run; distinct_nontrivial counts runs (distinct parameter/seed combinations) plus distinct merge trees",
+            rule: "one evaluation = one run of the real `fst set|map` binary (unsorted mode) as a subprocess with seeded 0-2 ms delays injected at channel send/receive and around batch construction (hook H4): exit status 0, output opens and verify()s, keys == distinct input keys, every value == sum/max/min over ALL rows of its key, and for inputs without repeated keys the output bytes equal a sorted library build; the H4 batch trace is parsed into the merge tree (which leaf batches met in which union, per generation) and the worker assignment, and an offline conservation checker runs over it and records anomalies as evidence without judging them (the leaf batches together hold between #distinct keys and #rows rows, every intermediate file produced once and consumed by exactly one union, exactly one unconsumed result); inputs: 17 shapes (CRLF line endings, input files without a final newline, the same path listed twice in a row, no repeats, repeats far apart, adjacent repeats incl. identical rows, three input files, five input files of which three are empty, one row, empty, five keys x 200 rows, all identical rows, sorted, reverse sorted, 3000 (thorough 10^5) rows with 30% repeats) x batch sizes {1,2,3,7,all} x fd-limit {2,3,15} x threads {1,2,5,16} x {set,sum,max,min}, a quarter of the runs overwriting an existing longer destination file (--force): a systematic core (every input x mode x batch size) plus random combinations; one fixed configuration is repeated under 24 (200) delay seeds to count how many distinct merge trees scheduling alone produces; thorough adds ThreadSanitizer-instrumented and valgrind-memcheck runs; non-trivial = every run; distinct_nontrivial counts runs (distinct parameter/seed combinations) plus distinct merge trees",
             assumptions: vec!["keys are [a-z0-9]{1,12} (no CSV quoting, no empty lines), values < 2^32 so sums cannot overflow; fd-limit 1 is excluded as in the statement".into(), "interleavings are sampled, not enumerated: the evidence reports how many distinct groupings were actually observed".into(), "a subprocess hitting the 120 s watchdog is inconclusive, never a violation; a deadlock is reported only on logical quiescence (every thread in state S and zero CPU ticks consumed over 8 consecutive one-second samples), not on elapsed time".into()],
             floors: vec![("runs", 200), ("runs:mode=Set", 20), ("runs:mode=Sum", 20), ("runs:mode=Max", 20), ("runs:mode=Min", 20), ("runs:no-repeat-inputs-compared-bytewise", 20), ("trace:union-batches", 100), ("max:union-generations", 2), ("distinct-merge-trees-observed", 20), ("trace:conservation-checked", 200), ("runs:overwriting-a-longer-existing-output", 20)],
             exhaustive: Some(false),
